@@ -92,6 +92,53 @@ fn gen_case(r: &mut Rng, tier: &str) -> (String, u64, Vec<i64>, usize, usize) {
     (name.to_string(), alg, ws, k, plen)
 }
 
+/// genuine binary64 weights: decimal fractions, mixed magnitudes, sums that round, subnormals, ties
+fn gen_f64_weights(r: &mut Rng, big: bool) -> (&'static str, Vec<f64>) {
+    let maxn = if big { 30 } else { 18 };
+    match r.below(8) {
+        0 => {
+            let n = r.range(1, maxn) as usize;
+            ("f64_tenths", (0..n).map(|_| r.range(0, 30) as f64 / 10.0).collect())
+        }
+        1 => {
+            let n = r.range(2, maxn) as usize;
+            ("f64_mixed_magnitudes", (0..n).map(|_| (r.range(0, 1000) as f64 / 1000.0) * 10f64.powi(r.range(-12, 12) as i32)).collect())
+        }
+        2 => {
+            let n = r.range(2, maxn) as usize;
+            ("f64_random_bits", (0..n).map(|_| f64::from_bits(0x3FF0_0000_0000_0000 + (r.next() >> 12)) - 1.0).collect())
+        }
+        3 => {
+            // ties between sums: 0.1 + 0.2 vs 0.3, repeated values
+            let n = r.range(3, maxn) as usize;
+            ("f64_ties", (0..n).map(|_| *r.pick(&[0.1, 0.2, 0.3, 0.30000000000000004, 0.7, 0.0, 1.1])).collect())
+        }
+        4 => {
+            let n = r.range(2, 12) as usize;
+            let mut ws: Vec<f64> = (0..n).map(|_| r.range(0, 100) as f64 / 7.0).collect();
+            let i = r.below(n as u64) as usize;
+            ws[i] = 1e15 + r.range(0, 1000) as f64 / 3.0; // one dominant: the small ones are partly absorbed
+            ("f64_one_dominant", ws)
+        }
+        5 => {
+            let n = r.range(1, 10) as usize;
+            ("f64_subnormal", (0..n).map(|_| f64::from_bits(r.below(1 << 20)) * if r.chance(1, 3) { 0.0 } else { 1.0 }).collect())
+        }
+        6 => {
+            let n = r.range(2, maxn) as usize;
+            ("f64_thirds", (0..n).map(|_| r.range(0, 12) as f64 / 3.0).collect())
+        }
+        _ => {
+            // outside the contract: a negative fraction or -0.0
+            let n = r.range(1, 8) as usize;
+            let mut ws: Vec<f64> = (0..n).map(|_| r.range(0, 9) as f64 / 4.0).collect();
+            let i = r.below(n as u64) as usize;
+            ws[i] = if r.chance(1, 3) { -0.0 } else { -(r.range(1, 9) as f64) / 8.0 };
+            ("f64_negative", ws)
+        }
+    }
+}
+
 /// weights of a given length for the reuse stream (values: random, ties, zeros, small alphabet, powers of two)
 fn gen_values(r: &mut Rng, n: usize) -> Vec<i64> {
     match r.below(6) {
@@ -152,6 +199,7 @@ fn main() {
     let mut f64_runs = 0usize;
     let mut reuse_sequences = 0usize;
     let mut reuse_calls = 0usize;
+    let mut f64_genuine = 0usize;
     let mut idx = 0usize;
     while idx < a.cases {
         let mut r = rng.fork();
@@ -270,6 +318,61 @@ fn main() {
             }
             continue;
         }
+        if r.chance(1, 5) {
+            // ---- genuine f64 weights (Greedy only: KkWeight needs Ord), compared bit-for-bit with the
+            // SpecFloat instance of the generic model; the checker replays LPT in the rounded arithmetic
+            let (fam, wf) = gen_f64_weights(&mut r, a.tier == "thorough");
+            let n = wf.len();
+            let k = match r.below(12) {
+                0 => r.below(2) as usize,
+                1 => n + 1 + r.below(3) as usize,
+                2 | 3 => 2,
+                _ => r.range(2, 8) as usize,
+            };
+            let plen = if r.chance(1, 14) { if r.chance(1, 2) { n + 1 } else { n.saturating_sub(1) } } else { n };
+            let this = idx;
+            idx += 1;
+            if let Some(o) = a.only {
+                if o != this {
+                    continue;
+                }
+            }
+            let p0: Vec<usize> = vec![usize::MAX; plen];
+            let wf2 = wf.clone();
+            let p02 = p0.clone();
+            let res = guarded(0, Duration::from_secs(20), move || {
+                let mut p = p02;
+                coupe::Greedy { part_count: k }.partition(&mut p, wf2.iter().cloned()).map(|()| p)
+            });
+            match &res {
+                Guarded::Hang => hangs += 1,
+                Guarded::Panic(_) => panics += 1,
+                _ => {}
+            }
+            f64_genuine += 1;
+            let bits: Vec<u128> = wf.iter().map(|x| x.to_bits() as u128).collect();
+            let coq = format!(
+                "mk12f {} {}%nat {} {}",
+                coq_nlist(bits.iter().cloned()),
+                k,
+                coq_nlist(p0.iter().map(|x| *x as u128)),
+                coq_impl_partition(&res)
+            );
+            let wtxt: Vec<String> = wf.iter().map(|x| format!("{:?}", x)).collect();
+            let btxt: Vec<String> = bits.iter().map(|x| x.to_string()).collect();
+            let json = format!(
+                "{{\"algorithm\":\"Greedy\",\"weight_type\":\"f64\",\"weights_f64\":[{}],\"weights_bits\":[{}],\"part_count\":{},\"partition_len\":{},\"impl\":{}}}",
+                wtxt.join(","),
+                btxt.join(","),
+                k,
+                plen,
+                json_impl_partition(&res)
+            );
+            let key = format!("f64|{:?}|{}|{}", bits, k, plen);
+            let nontrivial = plen == n && k >= 2 && n >= 3 && wf.iter().any(|x| *x != 0.0);
+            w.push(coq, json, &key, nontrivial, &format!("greedy:{}", fam));
+            continue;
+        }
         let (fam, alg, ws, k, plen) = gen_case(&mut r, &a.tier);
         let this = idx;
         idx += 1;
@@ -342,7 +445,7 @@ fn main() {
         }
     }
     w.finish(&format!(
-        "\"hangs\":{},\"panics\":{},\"f64_runs\":{},\"reuse_sequences\":{},\"reuse_calls\":{}",
-        hangs, panics, f64_runs, reuse_sequences, reuse_calls
+        "\"hangs\":{},\"panics\":{},\"f64_runs\":{},\"f64_genuine\":{},\"reuse_sequences\":{},\"reuse_calls\":{}",
+        hangs, panics, f64_runs, f64_genuine, reuse_sequences, reuse_calls
     ));
 }
